@@ -28,7 +28,16 @@ RULE = ("E2 (correspondence): the shared online generator of harness/e2.py drive
         "after the last build a random subset of sources is edited (content, deletion, re-creation, a new "
         "file matching a registered pattern) and every executed command of the rebuild must be justified by a "
         "clause of the property read from the graph before/after. A cone case is non-trivial when a command "
-        "was executed; distinct by (executed set, edited set)")
+        "was executed; distinct by (executed set, edited set). 4 of 7 E3 cases additionally register one "
+        "pattern string several times with different sub-patterns for its named wildcard (in one plan, as "
+        "static(pattern) next to glob(pattern, sub), and in two different plan steps) over files that the "
+        "sub-patterns really separate, with additions and deletions of such files in the history. In the "
+        "restart flavour a tracked environment variable additionally goes A -> B -> A over two restarts and "
+        "the outputs must be those built with A. Direct glob oracle on the real Workflow: 2-4 registrations "
+        "of one pattern with sub-patterns {none,[0-9],[a-z],[A-Z]} owned by the plan and two other steps; "
+        "startup.rescan_nglobs and process_nglob_changes with nothing changed must leave steps, stored hashes "
+        "and recorded matches alone; after one file appears or disappears exactly the owners whose match set "
+        "changes (independent matcher) are PENDING without hash and the recorded matches equal a fresh scan")
 TRUSTED_BASE = [
     "Coq 8.16.1 kernel; vm_compute in Examples, tie lemmas and in the correspondence evaluation; no native_compute",
     "Print Assumptions: Closed under the global context for every C04 theorem",
@@ -56,6 +65,9 @@ SETTINGS = {
     "quick": (20, 60, 60, 3, 4),
     "thorough": (120, 1200, 1200, 5, 8),
 }
+NGLOB_CASES = {"quick": 40, "thorough": 600}
+# 4 of 7 E3 cases carry several glob registrations that share one pattern string (c04_e3.add_shared_globs)
+SHARED_GLOBS = [None, "one_plan", None, "static_and_glob", "two_steps", None, "one_plan+static_and_glob"]
 
 
 def generate(ctx):
@@ -262,9 +274,11 @@ def _e3_items(ctx, scale=1):
     base = 100000 * (ctx.seed + 1) + (50000 if ctx.thorough() else 0)
     items = []
     for k in range(nres * scale):
-        items.append({"seed": base + k, "flavour": "restart", "max_phases": max_phases, "njob": 1 + k % 3})
+        items.append({"seed": base + k, "flavour": "restart", "max_phases": max_phases, "njob": 1 + k % 3,
+                      "shared_globs": SHARED_GLOBS[k % 7]})
     for k in range(nwatch * scale):
-        items.append({"seed": base + 20000 + k, "flavour": "watch", "max_phases": max_phases, "njob": 1 + k % 3})
+        items.append({"seed": base + 20000 + k, "flavour": "watch", "max_phases": max_phases, "njob": 1 + k % 3,
+                      "shared_globs": SHARED_GLOBS[k % 7]})
     return items
 
 
@@ -313,6 +327,10 @@ def _run_e3(ctx, items):
             if k.startswith("noop:"):
                 for j in range(v):
                     ctx.case(("e3", item["seed"], item["flavour"], k, j), nontrivial=True)
+        if item.get("shared_globs"):
+            ctx.count("e3:cases_with_shared_pattern_registrations")
+            ctx.count("e3:noop_rebuilds_on_shared_pattern_projects",
+                      sum(v for k, v in rep["stats"].items() if k.startswith("noop:")))
         for key in rep.get("cone_keys", []):
             ctx.case(("e3cone", repr(key)), nontrivial=bool(key[0]))
         if rep["failures"]:
@@ -325,7 +343,23 @@ def _run_e3(ctx, items):
                                 "stats": r0["stats"], "cone_edits": r0.get("cone_edits")}})
 
 
+def _run_nglob(ctx, n, tag="ng"):
+    """Direct oracle on the real Workflow: startup.rescan_nglobs / process_nglob_changes with several
+    registrations sharing one pattern string (c04_e2._nglob_case)."""
+    t0 = time.time()
+    for i in range(n):
+        rng = random.Random(f"c04-{tag}-{ctx.seed}-{ctx.tier}-{i}")
+        rep = c04_e2.nglob_case_sync(rng)
+        for k, v in rep["stats"].items():
+            ctx.count("e2:" + k, v)
+        ctx.case(("nglob", tag, i), nontrivial=bool(rep["stats"].get("nglob:nochange")))
+        for sig, detail, witness in rep["failures"][:1]:
+            ctx.add_failure("oracle", "E2:nglob", sig, detail[:700], witness=witness)
+    ctx.stats["nglob_s"] = round(ctx.stats.get("nglob_s", 0) + time.time() - t0, 1)
+
+
 def oracle(ctx):
+    _run_nglob(ctx, NGLOB_CASES[ctx.tier])
     _run_e3(ctx, _e3_items(ctx))
 
 
@@ -336,6 +370,7 @@ def search(ctx):
         it["seed"] += 7000000                      # other seeds than the oracle's
         it["max_phases"] = max(it["max_phases"], 4)
     _run_e3(ctx, items)
+    _run_nglob(ctx, 4 * NGLOB_CASES[ctx.tier], tag="ngsearch")
 
 
 def replay(ctx, obj):
@@ -351,6 +386,9 @@ def replay(ctx, obj):
         print("replayed E3 case:", json.dumps([f["signature"] for f in rep["failures"]]))
         if rep["failures"]:
             _report_e3(ctx, item, rep, minimise=False)
+    elif "registrations" in w:
+        print("replaying the glob oracle (the witness names files, pattern and registrations):", json.dumps(w)[:400])
+        _run_nglob(ctx, NGLOB_CASES[ctx.tier])
     else:
         correspondence(ctx)
         oracle(ctx)
